@@ -57,6 +57,8 @@ class Cfg:
         self.literal_first_effect = True     # a call as FIRST element of an array literal (the compile-time evaluator evaluates it twice)
         self.substr_past_end = True          # str_substring with start at / beyond the end of the string or on a string of unknown length
                                              # (the compile-time evaluator yields void there: C03/C06 streams switch it off)
+        self.str_self_assign = True          # `set s e` where e yields the string variable s itself (s, or a cond with s as a branch):
+                                             # the compile-time evaluator frees the value it then stores (C03/C06 streams switch it off)
         self.strops = False                  # strings as computed values: + / str_concat / str_length / str_equals / str_contains /
                                              # char_at / str_substring / int_to_string; lets/params/returns/globals of type string
         self.reuse_names_across_fns = False  # locals / parameters / loop variables of a function re-use names that EARLIER functions bound
@@ -506,7 +508,13 @@ class Gen:
             return ('let', mut, x, ty, e)
         if k < 0.34 and muts:
             x, t = r.choice(muts)
-            return ('set', x, self.gen_expr(t, ed, sc))
+            e = self.gen_expr(t, ed, sc)
+            if t == 'str' and yields_var(e, x):
+                if self.c.str_self_assign:
+                    self.f('str_self_assign')
+                else:
+                    e = ('s2', 'plus', e, ('str', b''))
+            return ('set', x, e)
         if k < 0.52:
             e = self.gen_expr(r.choice(['int', 'int', 'bool']), ed, sc)
             if self.c.arrays and r.random() < 0.15:
@@ -692,6 +700,11 @@ class Gen:
         body = self.seq([stmts, ('ret', ('num', r.choice([0, 0, 1, 3, 7, 42, 255])))])
         prog['fns'].append(dict(name=0, params=[], ret='int', body=body, effect=True))
         return prog
+
+
+def yields_var(e, x):
+    """is the value of e the value object of variable x itself (no new string is built)?"""
+    return e == ('var', x) or (e[0] == 'cond' and (yields_var(e[2], x) or yields_var(e[3], x)))
 
 
 STR_NODES = ('s1', 's2', 'substr')
